@@ -183,11 +183,26 @@ func TestVerifC02_Timeouts(t *testing.T) {
 			c.Faults = append(c.Faults, e4Fault{Kind: "dropAck", Conn: rapid.IntRange(1, i+2).Draw(rt, "dconn"),
 				Type: rapid.SampledFrom([]int{rtPubRec, rtPubRec, rtPubComp, rtPubComp, rtPubAck, rtSubAck}).Draw(rt, "dack"), Nth: rapid.IntRange(1, 3).Draw(rt, "dnth")})
 		}
+		if rapid.IntRange(0, 2).Draw(rt, "late") == 0 {
+			// an acknowledgement that is only late: it arrives after the response timeout, while the application's slow
+			// OnError still runs and the connection is therefore still open
+			c.Cfg.OnErrorSleepUs = rapid.SampledFrom([]int{3000, 6000}).Draw(rt, "onErrorSleepUs2")
+			c.Faults = append(c.Faults, e4Fault{Kind: "lateAck", Conn: rapid.IntRange(1, 2).Draw(rt, "lconn"),
+				Type: rapid.SampledFrom([]int{rtPubRec, rtPubRec, rtPubComp}).Draw(rt, "lack"), Nth: rapid.IntRange(1, 2).Draw(rt, "lnth"),
+				DelayUs: c.Cfg.RespTimeoutMs*1000 + rapid.SampledFrom([]int{300, 1000, 2000}).Draw(rt, "lateBy")})
+		}
 		return c
 	}, func(tb rapid.TB, c e4Case) {
 		e4Check(tb, "C02", c, e4OracleC02, func(r *e4Result) (bool, []string) {
 			labels, hit := e4C02Positions(r)
 			dropped := false
+			for _, e := range r.Log {
+				if e.Kind == "B-LATE" {
+					labels = append(labels, "c02:ack-late")
+					dropped = true
+					break
+				}
+			}
 			for _, e := range r.Log {
 				if e.Kind == "B-DROPPED" {
 					dropped = true
